@@ -120,11 +120,59 @@ REQUIRED_THEOREMS += ['range_iter_new_tie', 'range_iter_next_tie', 'vec_iter_nex
 # pass IterNext / store into the loop variable / leave on the stop marker / pop / body in its own scope / jump back to the IterNext
 THEOREM_MODULES.append("Yarel.Props.FnsTie.Statements")
 REQUIRED_THEOREMS += ["for_statement_skeleton", "for_statement_needs_a_name", "for_protocol_order", "break_statement_skeleton", "continue_statement_skeleton"]
+# what break and continue emit for the scopes they leave (Props/FnsTie/ScopeEnd, body of Parser::emit_scope_end as read on this run, for BOTH values of
+# pop_locals): a captured local is closed, an uncaptured one popped - a pass left early closes what it captured exactly as a pass that ends
+THEOREM_MODULES.append("Yarel.Props.FnsTie.ScopeEnd")
+REQUIRED_THEOREMS += ["emit_scope_end_spec", "captured_slots_are_closed", "scope_end_matches_reference"]
 
 
 # every value is an element: nil, false, 0, the empty string, empty containers, the StopIter CLASS (only an INSTANCE of it is the end
 # marker) go through every kind of iterable - built-in, user class, iterator assembled from closures, the adapters - like any other value
 SCENARIOS.append(("every-value-is-an-element", 'var vals = [1, nil, false, 0, "", [], nil, StopIter, (), 2];\n#[derive(Iter)] class Walk { #[constructor] fn new(self, items) { self.items = items; self.i = 0; } fn iter(self) { self.i = 0; return self; }\n  fn next(self) { if self.i >= self.items.len() { return StopIter.new(); } self.i = self.i + 1; return self.items[self.i - 1]; } }\n#[constructor(new)] class Bare { }\nfn closure_iter(items) { var o = Bare.new(); var i = 0; o.iter = || o; o.next = || { if i >= items.len() { return StopIter.new(); } i = i + 1; return items[i - 1]; }; return o; }\nfn if_nil(v) { if v == 2 { return nil; } return v; }\nfn walk(it) { var out = []; for x in it { out.push(x); } return out; }\nprint(walk(vals));\nprint(walk((1, nil, false, 0, "", [], nil, StopIter, (), 2)));\nprint(walk(Walk.new(vals)));\nprint(walk(closure_iter(vals)));\nprint(walk(vals.iter().map(|v| v)));\nprint(walk(Walk.new(vals).map(|v| v)));\nprint(Walk.new(vals).map(|v| v).collect());\nprint(vals.iter().filter(|v| true).collect());\nprint(Walk.new(vals).filter(|v| v == nil).collect());\nprint(walk(closure_iter(vals)).len());\nprint(vals.iter().map(|v| nil).collect());\nprint(Walk.new([1, 2, 3]).map(|v| if_nil(v)).collect());\nprint(vals.iter().reduce(|a, v| a + 1, 0));\nprint(Walk.new(vals).reduce(|a, v| a + 1, 0));\nvar n = 0; for x in Walk.new([nil, nil, nil]) { n = n + 1; } print(n);\nvar it = Walk.new([nil, 5]); print(it.next()); print(it.next()); print(type(it.next()) == StopIter);\n', ['[1, nil, false, 0, , [], nil, <class StopIter>, (), 2]', '[1, nil, false, 0, , [], nil, <class StopIter>, (), 2]', '[1, nil, false, 0, , [], nil, <class StopIter>, (), 2]', '[1, nil, false, 0, , [], nil, <class StopIter>, (), 2]', '[1, nil, false, 0, , [], nil, <class StopIter>, (), 2]', '[1, nil, false, 0, , [], nil, <class StopIter>, (), 2]', '[1, nil, false, 0, , [], nil, <class StopIter>, (), 2]', '[1, nil, false, 0, , [], nil, <class StopIter>, (), 2]', '[nil, nil]', '10', '[nil, nil, nil, nil, nil, nil, nil, nil, nil, nil]', '[1, nil, 3]', '10', '10', '3', 'nil', '5', 'true']))
+
+
+# closures made in a loop pass keep that pass's variables, however the pass ends: every (continue-at, break-at) pair over every kind of loop;
+# the slots of the pass are re-used by the next pass and by the code after the loop, so a pass that left a captured variable open on the
+# stack (a pass left by break or continue that did not close what it captured) would read the next occupant of its slot
+def _closure_pass_scenario():
+    n = 4
+    src = (COUNTER +
+           'fn t(it, c, b) { var fs = []; for i in it { var j = i * 10; fs.push(|| j); if i == c { continue; } if i == b { break; } var k = j + 1; fs.push(|| k); }\n'
+           '  var p = "x"; var q = "y"; var r = "z"; return fs.iter().map(|f| f()).collect(); }\n'
+           'fn w(n, c, b) { var fs = []; var i = 0; while i < n { var j = i * 10; i = i + 1; fs.push(|| j); if i - 1 == c { continue; } if i - 1 == b { break; } var k = j + 1; fs.push(|| k); }\n'
+           '  var p = "x"; var q = "y"; var r = "z"; return fs.iter().map(|f| f()).collect(); }\n'
+           'fn nested(c, b) { var fs = []; for a in 0..2 { var m = a * 100; for i in 0..%d { var j = m + i; if i == c { fs.push(|| j); continue; } if i == b { fs.push(|| j + m); break; } } fs.push(|| m); }\n'
+           '  var p = "x"; return fs.iter().map(|f| f()).collect(); }\n' % n)
+    exp = []
+    def passes(first, c, b):
+        out = []
+        for i in range(first, first + n):
+            out.append(i * 10)
+            if i == c:
+                continue
+            if i == b:
+                break
+            out.append(i * 10 + 1)
+        return "[" + ", ".join(str(x) for x in out) + "]"
+    for c in range(-1, n):
+        for b in range(-1, n):
+            src += "print(t(0..%d, %d, %d)); print(t([0, 1, 2, 3], %d, %d)); print(t(Counter.new(%d), %d, %d)); print(w(%d, %d, %d));\n" % (n, c, b, c, b, n, c + 1, b + 1, n, c, b)
+            exp += [passes(0, c, b), passes(0, c, b), passes(1, c + 1, b + 1), passes(0, c, b)]
+            src += "print(nested(%d, %d));\n" % (c, b)
+            out = []
+            for a in range(2):
+                m = a * 100
+                for i in range(n):
+                    if i == c:
+                        out.append(m + i); continue
+                    if i == b:
+                        out.append(m + i + m); break
+                out.append(m)
+            exp.append("[" + ", ".join(str(x) for x in out) + "]")
+    return ("closures-of-a-pass-keep-its-variables-however-it-ends", src, exp)
+
+
+SCENARIOS.append(_closure_pass_scenario())
 
 
 def canon_item(s):
